@@ -8,7 +8,7 @@ import random
 from checks.common import REPO, parallel_map
 from specs import chem
 
-MODULES = ["contracts.matcher", "contracts.comparator", "contracts.imputer"]
+MODULES = ["contracts.matcher", "contracts.comparator", "contracts.externals", "contracts.imputer"]
 DBS = ["synrbl/SynRuleImputer/rules_manager.json.gz", "Data/Rules/automated_rules.json.gz"]
 HALOGENS = ["F", "Cl", "Br", "I"]
 
